@@ -2,6 +2,7 @@
 """Prints the prompt for a seeded-mutation sub-agent: only the property text and its scratch worktree."""
 import json, sys
 pid, tag = sys.argv[1], sys.argv[2]
+WAVE_C = (" At least one of the three must be a change OUTSIDE the files named in the anchors (a caller, a helper in another package, initialisation/configuration code, or a different transaction handler that shares state with the anchored code), and at least one must depend on a SEQUENCE of two or more client operations, a particular concurrent schedule or a fault at a particular point rather than on a single malformed input." if tag.startswith("c") else "")
 p = next(json.loads(l) for l in open('/verif/properties.jsonl') if json.loads(l)['id'] == pid)
 wt = f"/tmp/mut-{pid}-{tag}"
 print(f"""You are testing how well a semantic property of a Go project is protected. The project is jhalter/mobius (a server for the 1990s Hotline chat / file-sharing protocol). You have your OWN scratch git worktree of it at {wt}/repo — work ONLY inside {wt} (never touch /repo, never read or write anything under /verif).
@@ -12,13 +13,13 @@ Quantifier: {p['quantifier']['text']}
 Why the existing tests cannot settle it: {p['why_tests_cant']}
 Code anchors: files {', '.join(p['anchors']['files'])}; mechanisms: {'; '.join(m['name'] + ' (' + m.get('where','') + ')' for m in p['anchors']['mechanism'])}.
 
-Your task: produce THREE independent, realistic source changes to the project (each a small patch a plausible refactor, optimisation or "cleanup" could introduce), each of which BREAKS the property above while the project still compiles and its existing test suite still passes. Prefer changes that need something specific to manifest — a particular interleaving, a crash or fault at a particular point, a multi-step sequence of operations, an unusual input (a boundary length, a particular bit, a particular name), or two cooperating sites that each look fine alone — NOT changes that ordinary use would expose at once. The three should use different mechanisms / different code sites. Aim for subtle changes in less obvious places too: helper functions, error paths, rarely taken branches, boundary arithmetic, the interaction between two files or two handlers, state that is only wrong after a particular sequence — not only the first mechanism named above.
+Your task: produce THREE independent, realistic source changes to the project (each a small patch a plausible refactor, optimisation or "cleanup" could introduce), each of which BREAKS the property above while the project still compiles and its existing test suite still passes. Prefer changes that need something specific to manifest — a particular interleaving, a crash or fault at a particular point, a multi-step sequence of operations, an unusual input (a boundary length, a particular bit, a particular name), or two cooperating sites that each look fine alone — NOT changes that ordinary use would expose at once. The three should use different mechanisms / different code sites. Aim for subtle changes in less obvious places too: helper functions, error paths, rarely taken branches, boundary arithmetic, the interaction between two files or two handlers, state that is only wrong after a particular sequence — not only the first mechanism named above.{WAVE_C}
 
 For each change i in 1..3 create the directory {wt}/out/<i>/ containing:
   - patch.diff : `git diff` of the change against the worktree's HEAD (source files only; apply cleanly with `git apply`);
   - a demonstration: a Go test file (e.g. demo_test.go, to be dropped into the package it tests) or a small Go program, that FAILS (or prints a clear failure) with the change applied and PASSES without it. It may use unexported identifiers if placed in the package. State in meta.json exactly how to run it;
   - meta.json : {{"property": "{pid}", "title": "...one line...", "what_breaks": "...", "needs_to_manifest": "...the specific input / sequence / schedule / crash point...", "files_changed": [...], "demo": {{"file": "...", "dest_dir_in_repo": "...", "run": "go test -run TestDemo ./hotline/ (for example)"}}, "verified": {{"compiles": true, "existing_tests_pass_with_change": true, "demo_fails_with_change": true, "demo_passes_without_change": true}}}}.
 
-How to work: the Go toolchain is offline; in every shell call first `export GOFLAGS=-mod=mod GOPROXY=off GOSUMDB=off GOTOOLCHAIN=local`. Build with `go build ./...`. IMPORTANT: running the project's test suite rewrites tracked fixture files (internal/mobius/test/config/Users/guest.yaml gets re-indented and an untracked test-user.yaml appears) — after every `go test ./...` run `git -C {wt}/repo checkout -- internal/mobius/test && git -C {wt}/repo clean -fdq internal/mobius/test` so that patch.diff contains only your change. The full suite takes ~5 s (`go test -vet=off -count=1 ./...`). Verify all four facts in "verified" yourself for each change (apply → build → full suite passes → demo fails; revert → demo passes), and leave the worktree clean (no applied change) when you finish. A file hotline/export_verif.go (build tag `verif`) exists in the tree: ignore it, do not modify it. Do not weaken or delete existing tests. Keep each patch small (ideally < 15 changed lines).
+How to work: the Go toolchain is offline; in every shell call first `export GOFLAGS=-mod=mod GOPROXY=off GOSUMDB=off GOTOOLCHAIN=local`. Build with `go build ./...`. IMPORTANT: running the project's test suite rewrites tracked fixture files (internal/mobius/test/config/Users/guest.yaml gets re-indented and an untracked test-user.yaml appears) — after every `go test ./...` run `git -C {wt}/repo checkout -- internal/mobius/test && git -C {wt}/repo clean -fdq internal/mobius/test` so that patch.diff contains only your change. The full suite takes ~5 s (`go test -vet=off -count=1 ./...`). Verify all four facts in "verified" yourself for each change (apply → build → full suite passes → demo fails; revert → demo passes), and leave the worktree clean (no applied change) when you finish. A file hotline/export_verif.go (build tag `verif`) exists in the tree: ignore it, do not modify it. Do not use `git stash` (the stash is shared by all worktrees of the repository): save a change with `git diff > file` and restore with `git apply file`. Do not weaken or delete existing tests. Keep each patch small (ideally < 15 changed lines).
 
 Final answer: for each of the three changes, one paragraph: what it changes, why it breaks the property, what is needed to trigger it, and the verification results.""")
